@@ -336,7 +336,7 @@ fn spec_strategy() -> impl Strategy<Value = Spec> {
 }
 
 pub fn run(run: &mut Run) -> PResult {
-    run.rule = "hands of 2..7 slots over arbitrary 32-bit words. Generators: (E1) every u32 through the per-slot recogniser and every near-miss word (Hamming distance <= 2 of a card, plus structured fragments and a seeded raw sample) in every slot of an otherwise valid hand of every size; (E2) every ordered slot pair (i,j) with slot j := slot i over seeded base hands; (E3) every arrangement of sizes 2..4 over a 12-symbol alphabet; (R) proptest hands (45% valid / 25% one defect / 30% several; defects = duplicate of another slot, near-miss word, raw u32); thorough adds a libFuzzer campaign. Oracle: valid <=> every slot is one of the 52 model cards and no two slots equal. Non-trivial = hand with at least one defect; distinct by 64-bit hash of the word array".into();
+    run.rule = "hands of 2..7 slots over arbitrary 32-bit words. Generators: (E1) every u32 through the per-slot recogniser and every near-miss word (Hamming distance <= 2 of a card, plus structured fragments and a seeded raw sample) in every slot of an otherwise valid hand of every size; (E2) every ordered slot pair (i,j) with slot j := slot i over seeded base hands; (E3) every arrangement of sizes 2..4 over a 12-symbol alphabet; (E4) boundary-value base hands (first and last ordinal of every category, sizes 2..7, best five first/last) with every defect kind in every slot; (E5) every valid six-card hand and a stratum (thorough: all) of the seven-card hands, ascending and descending: validated = unvalidated; (R) 8-shard proptest hands (45% valid / 25% one defect / 30% several; defects = duplicate of another slot, near-miss word, raw u32); thorough adds a libFuzzer campaign. Oracle: valid <=> every slot is one of the 52 model cards and no two slots equal. Non-trivial = hand with at least one defect; distinct by 64-bit hash of the word array".into();
     run.assume("Six/Seven::are_unique report 'not unique' for otherwise distinct hands holding 0xFFFFFFFF (start sentinel); not asserted, since is_valid is false for such hands either way");
     run.assume("unvalidated ranking is only called on hands the model says are valid (arbitrary words are outside its domain)");
     let thorough = run.tier == Tier::Thorough;
@@ -560,6 +560,59 @@ pub fn run(run: &mut Run) -> PResult {
         }
     }
 
+    // call sequences: a hand, a variant with a defect, the hand again, ... every observation per call
+    {
+        let st = engine::RStats::new();
+        let cases: u32 = (if thorough { 1_000_000 } else { 150_000 }) / if run.is_twin() { 4 } else { 1 };
+        let strat = (spec_strategy(), spec_strategy(), any::<bool>());
+        let build = |(s1, s2, share): (Spec, Spec, bool)| -> Vec<Vec<u32>> {
+            let a = build(&Spec { n: s1.n, picks: s1.picks.clone(), defects: vec![] }, &alpha);
+            let b = build(&s1, &alpha);
+            // c: either an unrelated hand or the same base with other defects
+            let c = if share { build(&Spec { n: s1.n, picks: s1.picks.clone(), defects: s2.defects.clone() }, &alpha) } else { build(&s2, &alpha) };
+            vec![a.clone(), b.clone(), a.clone(), c, b, a]
+        };
+        let seq_check = |seq: &[Vec<u32>]| -> Result<(), String> {
+            let _ = check_hand(&[card::DECK[0], card::DECK[14], card::DECK[28], card::DECK[42], card::DECK[4]]);
+            for (i, h) in seq.iter().enumerate() {
+                check_hand(h).map_err(|f| format!("call {} of a sequence: {}: {}", i + 1, f.0, f.1))?;
+            }
+            Ok(())
+        };
+        let res = pt::run(run.seed, 0xC04_5E, cases, &strat, |v| {
+            let seq = build(v);
+            st.note(seq.iter().fold(3u64, |h, x| engine::mix(h ^ hash_words(x))), true, Some(&format!("size {}", seq[0].len())), || json!({"sequence": seq.iter().map(|h| card::render_hand(h)).collect::<Vec<_>>()}));
+            seq_check(&seq).map_err(|e| {
+                st.freeze();
+                e
+            })
+        });
+        st.flush(run, "call sequences over related hands (valid, with defects, valid again)", "proptest (histories)", None, "A = valid base, B = A with defects, C = other defects or another hand; order A B A C B A");
+        if let Err(f) = res {
+            let seq = build(f.value);
+            let mut cur = seq.clone();
+            for n in 1..=seq.len() {
+                if seq_check(&seq[..n]).is_err() {
+                    cur = seq[..n].to_vec();
+                    break;
+                }
+            }
+            let mut i = 0;
+            while cur.len() > 1 && i + 1 < cur.len() {
+                let mut cand = cur.clone();
+                cand.remove(i);
+                if seq_check(&cand).is_err() {
+                    cur = cand;
+                } else {
+                    i += 1;
+                }
+            }
+            let m = seq_check(&cur).err().unwrap_or_else(|| "not reproducible".into());
+            let sig = cur.iter().map(|h| card::render_hand(h)).collect::<Vec<_>>().join(" ; ");
+            return run.violation("C04.sequence", &sig, json!({"sequence": cur.iter().map(|h| hand_json(h)).collect::<Vec<_>>()}), &m);
+        }
+    }
+
     // R: proptest
     {
         let st = engine::RStats::new();
@@ -601,6 +654,14 @@ pub fn check_case(clause: &str, case: &Value) -> Result<(), String> {
         let got2 = <u32 as ckc_rs::PokerCard>::filter(w);
         if got != want || got2 != want {
             return Err(format!("filter({}) = {} / {}, the layout says {}", hex(w), hex(got), hex(got2), hex(want)));
+        }
+        return Ok(());
+    }
+    if clause == "C04.sequence" {
+        let _ = check_hand(&[card::DECK[0], card::DECK[14], card::DECK[28], card::DECK[42], card::DECK[4]]);
+        for (i, h) in case["sequence"].as_array().ok_or("sequence")?.iter().enumerate() {
+            let ws = engine::parse_words(&h["words"])?;
+            check_hand(&ws).map_err(|f| format!("call {} of the sequence: {}: {}", i + 1, f.0, f.1))?;
         }
         return Ok(());
     }
